@@ -127,6 +127,8 @@ def _process_string_field_value(path: List[str], value: Any, current_type: Any, 
             current_type=current_type.__args__[0],
             optional=True
         )
+    elif optional and value is None:
+        return value
     elif token == 'L':
         t = current_type.__args__[0]
         return [
